@@ -422,6 +422,21 @@
   (print (ev/read (p :out) 100))
   (os/proc-wait p))
 
+(defscenario process-all-pipes
+  # the three stream objects are reachable only through the process object
+  (def p (os/spawn ["/bin/sh" "-c" "read x; echo out-$x; echo err-$x >&2"] :p {:in :pipe :out :pipe :err :pipe}))
+  (window (churn))
+  (ev/write (p :in) "line\n")
+  (ev/close (p :in))
+  (def o (ev/read (p :out) 100))
+  (def e (ev/read (p :err) 100))
+  (print o e (os/proc-wait p)))
+
+(defscenario process-err-pipe-only
+  (def p (os/spawn ["/bin/sh" "-c" "echo only-err >&2"] :p {:err :pipe}))
+  (window (churn))
+  (print (ev/read (p :err) 100) (os/proc-wait p)))
+
 (defscenario int64-boxed
   (def a (int/s64 "9007199254740993"))
   (def t @{:v (int/u64 "18446744073709551615")})
